@@ -629,9 +629,21 @@ func (conn *Conn) Close() error {
 	}
 	// Drain both in and out channels to avoid a deadlock if the buffers
 	// have filled. See TestSendDeadlockOnFullBuffer in connection_test.go.
-	conn.drainIn()
-	conn.drainOut()
-	conn.wg.Wait()
+	// Keep draining until every goroutine has gone: they may still be
+	// blocked on (or still filling) either channel.
+	done := make(chan struct{})
+	go func() {
+		conn.wg.Wait()
+		close(done)
+	}()
+	for drained := false; !drained; {
+		select {
+		case <-conn.in:
+		case <-conn.out:
+		case <-done:
+			drained = true
+		}
+	}
 	conn.mu.Unlock()
 	// Dispatch after closing connection but before reinit
 	// so event handlers can still access state information.
